@@ -175,6 +175,26 @@ def load_known():
         return []
 
 
+def lock_cycles(edges):
+    """Label-level cycles (length 2-3) in the lock acquisition order graph observed in this run.
+    Only informational: a definite deadlock is reported by the lock monitor itself; many label-level
+    cycles are between locks of different objects of the same class (future A -> future B)."""
+    g = {}
+    for e in edges:
+        a, _, b = e.partition(" -> ")
+        if a != b:
+            g.setdefault(a, set()).add(b)
+    out = set()
+    for a in g:
+        for b in g[a]:
+            if a in g.get(b, ()):
+                out.add(" <-> ".join(sorted((a, b))))
+            for c in g.get(b, ()):
+                if c != a and a in g.get(c, ()):
+                    out.add(" -> ".join(sorted((a, b, c))) + " (3-cycle)")
+    return sorted(out)[:20]
+
+
 def slug(s):
     return re.sub(r"[^A-Za-z0-9_.+-]+", "_", s)[:80]
 
@@ -307,6 +327,7 @@ def main(argv=None):
             "placement_sites": len(sites),
             "placement_sites_sample": sorted(sites)[:25],
             "lock_order_edges": sorted(edges)[:60],
+            "lock_order_cycles_potential": lock_cycles(edges),
             "status": status,
             "inconclusive_cases": incon[:10],
             "known_findings_seen": [m for m, _, _ in known_hit],
